@@ -206,6 +206,66 @@ def number_cases(cases):
     return cases
 
 
+# --------------------------------------------------------------------------- "sparse word" operands
+# Integers whose 64-bit words are empty in one half, one byte or one bit position: sums / differences of a few powers of
+# two at sub-word boundaries of every word, and words that are zero in the low half / high half / low byte or all ones in
+# one half only.  They expose code that walks bignum words through half words or int-sized temporaries (a dropped word
+# that is non-zero only in bits 32..63, a carry through a word whose low 32 bits are all ones, ...), which dense random
+# words and 2^k +- 1 never do.
+SUB = (0, 1, 15, 16, 31, 32, 33, 47, 48, 62, 63)                 # bit offsets inside a word
+WORD_PATTERNS = (0x0000000100000000, 0x0000000080000000, 0x8000000000000000, 0x0000010000000000,
+                 0x00000000FFFFFFFF, 0xFFFFFFFF00000000, 0xFFFFFFFFFFFFFF00, 0x00000000000000FF,
+                 0x0000FFFF00000000, 0xFFFF0000FFFF0000, 0x0000000100000001, 0x000000007FFFFFFF,
+                 0xFFFFFFFF80000000, 0x7FFFFFFF00000000)
+
+
+def sparse_positions(words=4):
+    return [64 * w + o for w in range(words) for o in SUB]
+
+
+def sparse_fixed(words=4):
+    """Deterministic extremal shapes (magnitudes): a pattern in one word / in every word up to it, alone, under a one in
+    the next word, and under a one several zero words higher."""
+    out = set()
+    for w in range(words):
+        for p in WORD_PATTERNS:
+            low = p << (64 * w)
+            rep = sum(p << (64 * v) for v in range(w + 1))
+            out.update([low, (1 << (64 * (w + 1))) + low, (1 << (64 * (words + 1))) + low, rep, (1 << (64 * (w + 1))) + rep])
+    out.update(1 << pos for pos in sparse_positions(words + 1))
+    out.discard(0)
+    return sorted(out)
+
+
+def sparse_random(rng, n, words=4):
+    """Seeded: sums and differences of 2..4 powers of two at the sub-word positions (magnitudes)."""
+    pos = sparse_positions(words + 1)
+    out = []
+    while len(out) < n:
+        v = 0
+        for _ in range(rng.randint(2, 4)):
+            v += rng.choice((1, 1, -1)) * (1 << rng.choice(pos))
+        if v:
+            out.append(abs(v))
+    return out
+
+
+def sparse_pairs(words=4):
+    """Thorough: every sum and difference of two powers of two at the sub-word positions (magnitudes)."""
+    pos = sparse_positions(words + 1)
+    out = set()
+    for i, a in enumerate(pos):
+        for b in pos[:i]:
+            out.add((1 << a) + (1 << b))
+            out.add((1 << a) - (1 << b))
+    return sorted(out)
+
+
+def word_counts(words=4, step=8):
+    """Shift counts / bit positions at every multiple of step, +-1, up to `words` words."""
+    return sorted(set(m + d for m in range(0, 64 * words + 1, step) for d in (-1, 0, 1) if m + d > 0))
+
+
 # --------------------------------------------------------------------------- running the implementation
 def build_numprobe(build, sc):
     mod = sc.sub("nummod_" + re.sub(r"[^A-Za-z0-9]+", "_", os.path.basename(build.path.rstrip("/"))))   # one per build
